@@ -209,11 +209,18 @@ def run(chk):
                     t = flow.simplify_term(T.operand(o, bb, i))
                     # value when the member is missing: phi of the read value and the default expression
                     defaults = []
-                    for x in (t[1] if t[0] == "phi" else [t]):
+                    if t[0] == "gamma":
+                        # the value taken when the member's slot is still None after the key loop
+                        cands = [v for l, v in t[2] if (flow.presence_test(t[1], l) or (None, None))[1] is False]
+                    else:
+                        cands = t[1] if t[0] == "phi" else [t]
+                    for x in cands:
                         if x[0] == "call" and x[1].endswith("default_true"):
                             defaults.append(True)
                         elif x[0] == "call" and names.is_(x[1], "Default::default"):
                             defaults.append(False)
+                        elif x == ("const", 0) or x == ("const", 1):
+                            defaults.append(bool(x[1]))
                         elif x[0] == "call" and x[1] in p.bodies:
                             o2 = S2.outcomes(p.bodies[x[1]])
                             defaults += [bool(r.value[1]) for r in o2 if r.value[0] == "const"]
@@ -312,7 +319,7 @@ def client_mapping(chk, p, S, tab, R="R7 client mapping", K="R7"):
         if ok_nf:
             cs = nf[0].cond_strs()
             wit.append("CredentialNotFound iff %s" % cs)
-            need = [("StatusCode discriminant = Ctap2", lambda t, l: t == ("discr", ("param", 1)) and l == ("in", "1")),
+            need = [("StatusCode discriminant = Ctap2", lambda t, l: flow.is_discr(t, ("param", 1)) and l == ("in", "1")),
                     ("Ctap2Code discriminant = Known", lambda t, l: t[0] == "discr" and t[1][0] == "field" and l == ("in", "0")),
                     ("Ctap2Error = NoCredentials", lambda t, l: (t[0] == "discr" or t[0] == "field") and l == ("in", str(tab["status"]["no_credentials"])))]
             for nm, f in need:
